@@ -95,13 +95,13 @@ func scan(data []byte, procs int, cf *config, active bool, late bool) (objs []pb
 	if cf != nil {
 		sc.SkipNodes, sc.SkipWays, sc.SkipRelations = cf.SkipNodes, cf.SkipWays, cf.SkipRelations
 		if cf.Node.Code != 0 {
-			sc.FilterNode = func(n *osm.Node) bool { return cf.Node.Eval(int64(n.ID), n.Version, len(n.Tags)) }
+			sc.FilterNode = func(n *osm.Node) bool { o := pbfwire.Snapshot(n); return cf.Node.EvalObs(&o) }
 		}
 		if cf.Way.Code != 0 {
-			sc.FilterWay = func(w *osm.Way) bool { return cf.Way.Eval(int64(w.ID), w.Version, len(w.Tags)) }
+			sc.FilterWay = func(w *osm.Way) bool { o := pbfwire.Snapshot(w); return cf.Way.EvalObs(&o) }
 		}
 		if cf.Relation.Code != 0 {
-			sc.FilterRelation = func(r *osm.Relation) bool { return cf.Relation.Eval(int64(r.ID), r.Version, len(r.Tags)) }
+			sc.FilterRelation = func(r *osm.Relation) bool { o := pbfwire.Snapshot(r); return cf.Relation.EvalObs(&o) }
 		}
 	}
 	var kept []osm.Object
@@ -420,6 +420,16 @@ func hasPlain(b *pbfgen.Block) bool {
 func pred3(t [3]int64) pbfwire.Pred { return pbfwire.Pred{Code: t[0], A: t[1], B: t[2]} }
 
 func randPred(r *rand.Rand) pbfwire.Pred {
+	if r.Intn(3) == 0 { // predicates that read the other fields of the element (wave 8)
+		switch c := int64(8 + r.Intn(10)); c {
+		case 8:
+			return pbfwire.Pred{Code: 8, A: int64(1 + r.Intn(4))}
+		case 10:
+			return pbfwire.Pred{Code: 10, A: int64(1 + r.Intn(5000))}
+		default:
+			return pbfwire.Pred{Code: c}
+		}
+	}
 	switch r.Intn(10) {
 	case 0:
 		return pbfwire.Pred{Code: 0}
@@ -538,7 +548,7 @@ func main() {
 	}
 	a := wire.ParseArgs()
 	w := wire.NewWriter("C08", a.Seed, a.Tier)
-	w.Rule = "one case per generated PBF file (pbfgen.RandomFile, denser groups than C01) scanned unfiltered and under 4-8 configurations (all 8 skip-flag combinations cycling, predicates accept-all/reject-all/id mod k/has-tag/even version/hashed id per element type) x decoder counts from {1,2,3,7,16}, with deep snapshots at return time re-compared at end of scan (every second run: the consumer overwrites the slice entries of each object it is handed and appends to them, and the final comparison is against the state it left); files carry first-class zero values and member types outside the enum, every 5th is a headerless restart stream of 2-6 non-empty blocks; predicates also id-range kept/rejected; plus pbfgen.DirectedCorpus under each file's own configuration (incl. plain-node groups, shipped as trees without description); first of all three forced-overlap cases (procs 2, child process: the FilterNode callback of the first node of block 0 holds its decoder inside Decode until the other decoder has finished block 1; a crash is an observation); the first configuration of every file is assigned 10 ms (and two scheduler yields) after osmpbf.New returned, for every decoder count of the file; non-trivial = some run returns a proper non-empty subsequence"
+	w.Rule = "one case per generated PBF file (pbfgen.RandomFile, denser groups than C01) scanned unfiltered and under 4-8 configurations (all 8 skip-flag combinations cycling, predicates accept-all/reject-all/id mod k/has-tag/even version/hashed id per element type) x decoder counts from {1,2,3,7,16}, with deep snapshots at return time re-compared at end of scan (every second run: the consumer overwrites the slice entries of each object it is handed and appends to them, and the final comparison is against the state it left); files carry first-class zero values and member types outside the enum, every 5th is a headerless restart stream of 2-6 non-empty blocks; predicates also id-range kept/rejected and, a third of them, predicates on the other fields (number of way nodes / members, closed, contains ref, visible, has timestamp, changeset / uid parity, user, coordinates, empty tag key or value) evaluated on a snapshot of the object the filter callback receives; plus pbfgen.DirectedCorpus under each file's own configuration (incl. plain-node groups, shipped as trees without description); first of all three forced-overlap cases (procs 2, child process: the FilterNode callback of the first node of block 0 holds its decoder inside Decode until the other decoder has finished block 1; a crash is an observation); the first configuration of every file is assigned 10 ms (and two scheduler yields) after osmpbf.New returned, for every decoder count of the file; non-trivial = some run returns a proper non-empty subsequence"
 	rng := wire.Rng(a.Seed)
 	nfiles, ncfg, nprocs := int(40*a.Scale), 4, 2
 	if a.Tier == "thorough" {
@@ -597,7 +607,9 @@ func main() {
 		noskip.SkipNodes, noskip.SkipWays, noskip.SkipRelations = false, false, false
 		cfgs := []config{own, noskip,
 			{SkipNodes: dc.SkipNodes, Node: randPred(rng), Way: randPred(rng), Relation: randPred(rng)},
-			{SkipWays: true, Node: randPred(rng), Way: randPred(rng), Relation: randPred(rng)}}
+			{SkipWays: true, Node: randPred(rng), Way: randPred(rng), Relation: randPred(rng)},
+			// predicates on what the element CONTAINS: ways with at least two nodes, closed relations, node coordinates
+			{Node: pbfwire.Pred{Code: 16}, Way: pbfwire.Pred{Code: 8, A: 2}, Relation: pbfwire.Pred{Code: 8, A: 1}}}
 		procs := dc.Procs
 		c, _, err := buildCase(dc.Desc, cfgs, func(k int) []int {
 			if k == 0 || a.Tier == "thorough" {
